@@ -413,6 +413,25 @@ class FnSplicer:
             self.desugared.append({'rule': 'R10', 'loop': n, 'before': ' '.join(before.split()),
                                    'after': f'{{ let mut __s: usize = 0; let mut __fin: bool = false; loop {{ if __fin {{ break; }} let mut __e: usize = __s; loop {{ if __e >= {E}.len() {{ break; }} let {C} = &{E}[__e]; if {PRED} {{ break; }} __e += 1; }} {adv} .. }} }}'})
             return
+        if d == 'R18':
+            # for (V, T) in A.iter_mut().zip(B.iter()) { BODY }      (A, B plain identifiers)   =>
+            # { let mut __z: usize = 0; while __z < A.len() && __z < B.len() { let V = &mut A[__z]; let T = &B[__z]; __z += 1; BODY } }
+            # -- Zip stops at the shorter of the two; IterMut / Iter visit the elements in order. BODY is left untouched.
+            kw = rf.ct(kwci)
+            hdr = [rf.ct(x).text for x in range(kwci, obrace)]
+            if not (len(hdr) == 21 and hdr[0:2] == ['for', '('] and hdr[3] == ',' and hdr[5:7] == [')', 'in'] and hdr[8:15] == ['.', 'iter_mut', '(', ')', '.', 'zip', '(']
+                    and hdr[16:] == ['.', 'iter', '(', ')', ')']):
+                raise ExtractError(f'{self._where()}: R18 needs `for (v, t) in a.iter_mut().zip(b.iter())` (found `{" ".join(hdr)}`)')
+            V, T, A, B = hdr[2], hdr[4], hdr[7], hdr[15]
+            ls2 = dict(ls); ls2['invariant'] = [f'__z <= {A}@.len()', f'__z <= {B}@.len()'] + list(ls.get('invariant', []))
+            ls2['decreases'] = f'{A}@.len() - __z'
+            clauses = self._clauses(ls2)
+            before = rf.spaced(kwci, obrace + 1)
+            new_head = f'{{ let mut __z: usize = 0; while __z < {A}.len() && __z < {B}.len()\n{clauses}{{ let {V} = &mut {A}[__z]; let {T} = &{B}[__z]; __z += 1;'
+            self.ed.replace(kw.start, rf.ct(obrace).end, new_head)
+            self.ed.insert(rf.ct(cbrace).end, ' }', 1)
+            self.desugared.append({'rule': 'R18', 'loop': n, 'before': ' '.join(before.split()), 'after': ' '.join(new_head.replace(clauses, '').split()) + ' .. } }'})
+            return
         if d == 'R17':
             # let mut IT = E.iter().peekable();
             # while let (Some(A), B) = (IT.next(), IT.peek()) { BODY }          (E a plain identifier naming a slice)   =>
